@@ -49,7 +49,7 @@ CHECKS = {
                 "pid/env/file-time input outside listed path/trace readers, no state carried in statics, no build path in "
                 "any generated file (checked on everything the build and the witnesses generate), and the complete "
                 "Cli-field -> setter table (polarity, side effects, call order) that makes rcomp equal to the API. "
-                "This is a for-all argument from the shape of the code; it does not run the compiler. Late addition: no Settings setter overwrites fields other setters own (C17-R8; known finding: parser_algo does).",
+                "This is a for-all argument from the shape of the code; it does not run the compiler. Late addition: no Settings setter overwrites fields other setters own (C17-R8; known finding: parser_algo does). C17-R9: every bool flag rcomp always passes has, when absent, the value Settings::default() gives (known finding: force).",
         "note": "Trusted: rustc MIR for the analysed build configuration; prettyplease/syn assumed deterministic; the "
                 "documented side-effect table of Settings setters (rules/tables/settings_setters.json).",
     },
